@@ -54,7 +54,8 @@ def check(prop, tier, seed, replay=None):
                        'x 8 layouts (left, right, stride, left/right_padded<dyn|4>, left_padded<3>); sizes compared in attribute builds, triviality in attribute and emulation builds; non-trivial = rank >= 1')
     mlines = ['c18 %s %s pat=%s%s' % (lay, t, pat_str(pat), (' sp=%s' % sp) if sp is not None else '') for lay, sp, t, pat in U]
     mout = C.driver(mlines)
-    configs = [('gcc20-ubsan', True), ('gcc20-O2-ndebug-emul', False)] + ([('clang20-O0-assert', True), ('clang17-O0-ndebug-emul', False), ('gcc23-O0-assert', True)] if thorough else [])
+    # every compiler x language mode in which the compiler offers [[no_unique_address]] must use it (sizes compared): g++ and clang++, C++17 and C++20
+    configs = [('gcc20-ubsan', True), ('clang17-O2-ndebug', True), ('gcc17-O0-assert', True), ('gcc20-O2-ndebug-emul', False)] + ([('clang20-O0-assert', True), ('clang17-O0-ndebug-emul', False), ('gcc23-O0-assert', True)] if thorough else [])
     rep.notes['configs'] = [c for c, _ in configs]
     for cfg, attr in configs:
         try: exe, secs, cached = C.cxx_build('c18probe', sources(U), config=cfg)
